@@ -1163,6 +1163,32 @@ pub fn gen_c19(seed: u64) -> Scenario {
         sc.contents.push(Content::Gen(z));
         ops.push(Op::Decode { cid: i, fault: None, slot: i });
     }
+    // a small virtual filesystem for the resolution path (exists with `alloc`; compared between {alloc} and {alloc,std})
+    sc.dirs = vec!["/zi".into(), "/zi/".into(), "".into(), "rel".into(), "/a//b/".into()];
+    for (i, name) in ["Zone/A", "B", "EST5EDT", "localtime"].iter().enumerate() {
+        let d = sc.dirs[r.usize(sc.dirs.len())].clone();
+        sc.files.push(FileInit { path: format!("{d}/{name}"), cid: i % nz, prev: None, perm: None });
+        if r.chance(1, 2) {
+            sc.files.push(FileInit { path: format!("{}/{name}", d.trim_end_matches('/')), cid: (i + 1) % nz, prev: None, perm: None });
+        }
+    }
+    sc.files.push(FileInit { path: "/etc/localtime".into(), cid: 0, prev: None, perm: None });
+    for _ in 0..r.usize(4) {
+        let tz = match r.below(8) {
+            0 => "localtime".to_string(),
+            1 => format!(":{}", ["Zone/A", "B", "None"][r.usize(3)]),
+            2 => " EST5EDT ".to_string(),
+            3 => "<+03>-3".to_string(),
+            4 => "/zi//Zone/A".to_string(),
+            _ => ["Zone/A", "B", "EST5EDT", "None", "localtime"][r.usize(5)].to_string(),
+        };
+        let mut dirs: Vec<usize> = (0..sc.dirs.len()).collect();
+        for i in (1..dirs.len()).rev() {
+            dirs.swap(i, r.usize(i + 1));
+        }
+        dirs.truncate(1 + r.usize(4));
+        ops.push(Op::Resolve { tz: TzArg::Lit(tz), dirs, slot: 7 });
+    }
     let nq = 10 + r.usize(30);
     for _ in 0..nq {
         let zi = r.usize(nz);
